@@ -312,7 +312,13 @@ func (g *gen) places(thorough bool) []string {
 				p[5] = "opt"
 			}
 		}
-		if n > 0 {
+		yes := 0
+		for _, v := range p {
+			if v == "yes" {
+				yes++
+			}
+		}
+		if yes > 0 { // at least one mandatory place: an empty expression is not in the grammar
 			return p
 		}
 	}
